@@ -94,9 +94,11 @@ struct Fin {
 						int sk = 2 + static_cast<int>(b % 5U);
 						vp::ops::with_operand<D, int, true>(src, sk, [&](auto& w) {
 							if(kind == N_ASSIGN_VIEW) {
-								switch((b >> 3U) % 3U) {
+								switch((b >> 3U) % 5U) {
 									case 0: expect_assert(death_test([&] { v = w; }), "lvalue view = view of different extents"); break;
 									case 1: expect_assert(death_test([&] { std::move(v) = w; }), "rvalue view = view of different extents"); break;
+									case 2: expect_assert(death_test([&] { v = std::move(w); }), "lvalue view = rvalue view of different extents (A() = B())"); break;
+									case 3: expect_assert(death_test([&] { std::move(v) = std::move(w); }), "rvalue view = rvalue view of different extents"); break;
 									default: expect_assert(death_test([&] { v = std::as_const(w); }), "view = const view of different extents"); break;
 								}
 							} else { expect_assert(death_test([&] { v.elements() = w.elements(); }), "elements() = elements() of different size"); }
